@@ -170,7 +170,16 @@ impl<'a> Analysis<'a> {
     }
 
     // ------------------------------------------------------------ C02
+    /// a message larger than all data the case ever wrote can only contain bytes nobody wrote
+    pub fn oversize(&self) -> Result<(), V> {
+        if let Some((side, len)) = self.run.oversize {
+            return Err(("c02-more-bytes-on-the-wire-than-written".into(), format!("side {side} put a single message of {len} bytes on the wire; all applications of this case together wrote, relayed and sent less than {} bytes", crate::engine::MAX_SIM_MESSAGE)));
+        }
+        Ok(())
+    }
+
     pub fn integrity(&self) -> Result<(), V> {
+        self.oversize()?;
         for (st, a) in self.run.app_events() {
             match a {
                 AppEv::DataMismatch { stream, .. } if *stream >= self.streams.len() => {
@@ -226,6 +235,7 @@ impl<'a> Analysis<'a> {
     // ------------------------------------------------------------ C03
     /// returns (number of times a sender hit zero credit, flows checked)
     pub fn credit(&self) -> Result<(u32, u32), V> {
+        self.oversize()?;
         #[derive(Default, Clone)]
         struct Gen {
             opener: Side,
